@@ -146,8 +146,9 @@ def generate(tier, rng):
     # heterogeneous observation spaces across agents (same kind, different sizes); unsorted / non-string / multi-underscore ids
     for algo in ["MADDPG", "MATD3"]:
         for names in (["a_0", "a_1", "b_0"], ["b_0", "a_1", "a_0"]):
-            het = [VEC if group_of(n) == "a" else V2s for n in names]
-            for lead in [[], [2]]:
+            for het in ([VEC if group_of(n) == "a" else V2s for n in names],
+                        [{"t": "discrete", "n": 3} if group_of(n) == "a" else D5 for n in names]):   # sizes that matter: one-hot widths
+              for lead in [[], [2]]:
                 for order in ([0, 1, 2], [2, 1, 0], [1, 2, 0]):
                     cases.append({"kind": "prep", "algo": algo, "names": names, "hetero": True, "lead": lead, "input": "numpy",
                                   "normalize": True, "pat": 2, "order": order,
@@ -493,7 +494,7 @@ def coq_term(case, obs):
         nE = E if E else 1
         od = "[" + "; ".join(f"({a}, {coq_nats([a * 100 + e for e in range(nE)])})" for a in order) + "]"
         seen = "[" + "; ".join(f"({a}, {coq_nats(tags)})" for a, tags in obs["route"]) + "]"
-        fixed = _b(obs["route"] == _route_expected(case))      # repaired semantics iff the tree routes every row to its owner
+        fixed = "true"                   # agents are walked in agent_ids order since 3fff701
         ids = coq_nats(range(len(names)))
         if case["algo"] == "IPPO":
             return f"check_ippo {fixed} {_pairs(_groups(names))} {ids} {nE} {od} {seen}"
@@ -512,9 +513,9 @@ def coq_term(case, obs):
                 d = np.asarray(t["data"]).reshape(b, -1)
                 rows.append(f"({gi}, [" + "; ".join(coq_qs(r.tolist()) for r in d) + "])")
             seen = "(Some [" + "; ".join(rows) + "])"
-            fixed = _b(_ippo_prep_in_agent_order(case, obs))
+            fixed = "true"
         tol = TOL_NORM if (case["normalize"] and uses_inexact_norm({"space": sp, "normalize": True})) else "0"
-        return (f"check_ippo_prep {tol} {fixed} false {_b(case['normalize'])} {_pairs(_groups(names))} {coq_nats(range(len(names)))} "
+        return (f"check_ippo_prep {tol} {fixed} true {_b(case['normalize'])} {_pairs(_groups(names))} {coq_nats(range(len(names)))} "
                 f"{coq_leaf(sp)} {od} {seen}")
     if k == "ma_assemble":
         names, E = case["names"], case["E"]
@@ -559,10 +560,7 @@ def _batch_term(case, obs):
     batch = base[list(perm)]
     singles = "[" + "; ".join(coq_tq(list(base[i].shape), base[i].reshape(-1).tolist()) for i in range(n)) + "]"
     # rank-0 Box: repaired semantics iff the tree gives the scalar a feature axis
-    r0 = "false"
-    if sp["t"] == "box" and sp["shape"] == []:
-        from agilerl.utils.algo_utils import preprocess_observation as P
-        r0 = _b(P(np.zeros((2,), dtype=np.float32), build_space(sp)).dim() == 2)
+    r0 = "true"                                    # scalar Box observations carry a feature axis since 69cb5f0
     return (f"check_batch {r0} true true {coq_leaf(sp)} {coq_tq(list(batch.shape), batch.reshape(-1).tolist())} {singles} {seen}")
 
 
